@@ -21,6 +21,7 @@ func c02(p *core.Prog, r *core.Report) {
 	r.Rule("C02-R3", "E6 paths/guards", 3, "receiver verifies type constancy, accumulates every chunk, compares for equality")
 	r.Rule("C02-R4", "E6 who-may-call + E2", 4, "pooled checksum objects are reset and not used after release")
 	r.Rule("C02-R5", "E1 constants", 4, "checksum registry agreement")
+	wireCodes(p, r, "C02-R5", "checksum")
 	r.Rule("C02-R6", "E6 ordering", 2, "relay re-stamps continuation frames")
 	c02Writer(p, r)
 	c02Receiver(p, r)
